@@ -270,4 +270,113 @@ theorem edge_target_mem {cfg : Cfg} {a b : Node} (h : (a, b) ∈ edges cfg) : b 
     simp only [pipeNodes, List.mem_append]
     exact Or.inr h3
 
+/-! ## closed walks: from nodes to pipelines -/
+
+theorem chain_tgt_mem {a z x y : Node} {l : List Node} (h : (x, y) ∈ chain a l z) : y ∈ l ∨ y = z := by
+  induction l generalizing a with
+  | nil =>
+    simp only [chain, List.mem_singleton, Prod.mk.injEq] at h
+    exact Or.inr h.2
+  | cons b l ih =>
+    simp only [chain, List.mem_cons, Prod.mk.injEq] at h
+    rcases h with ⟨_, rfl⟩ | h
+    · exact Or.inl List.mem_cons_self
+    · rcases ih h with h' | h'
+      · exact Or.inl (List.mem_cons_of_mem _ h')
+      · exact Or.inr h'
+
+/-- an exporter node has no out-edge -/
+theorem exp_no_out {cfg : Cfg} {s : Sig} {e : CompId} {b : Node} : (Node.exp s e, b) ∉ edges cfg := by
+  intro h
+  obtain ⟨p, _, h1 | h2 | h3⟩ := mem_edges.mp h
+  · rcases recvNode_kind h1.1 with ⟨_, _, h'⟩ | ⟨_, _, _, h'⟩ <;> cases h'
+  · rcases chainNode_kind (chain_src_mem h2) with h' | ⟨_, _, h'⟩ <;> cases h'
+  · cases h3.1
+
+/-- a closed walk can be re-based at its second node -/
+theorem path_rotate {E : List (Node × Node)} {x : Node} (h : Path E x x) : ∃ b, (x, b) ∈ E ∧ Path E b b := by
+  cases h with
+  | single h => exact ⟨x, h, Path.single h⟩
+  | cons h rest => exact ⟨_, h, rest.trans (Path.single h)⟩
+
+theorem path_first {E : List (Node × Node)} {x y : Node} (h : Path E x y) : ∃ b, (x, b) ∈ E := by
+  cases h with
+  | single h => exact ⟨_, h⟩
+  | cons h _ => exact ⟨_, h⟩
+
+/-- a closed walk through a node of a chain whose nodes have no other out-edges passes through the chain's end -/
+theorem closed_forced {E : List (Node × Node)} {z : Node} : ∀ (l : List Node) (a : Node),
+    (a :: l).Nodup → (∀ x y, x ∈ a :: l → (x, y) ∈ E → (x, y) ∈ chain a l z) →
+    ∀ x, x ∈ a :: l → Path E x x → Path E z z := by
+  intro l
+  induction l with
+  | nil =>
+    intro a _ hout x hx hp
+    have hxa : x = a := by simpa using hx
+    subst hxa
+    obtain ⟨b, hE, hb⟩ := path_rotate hp
+    have := hout x b List.mem_cons_self hE
+    simp only [chain, List.mem_singleton, Prod.mk.injEq] at this
+    rw [this.2] at hb
+    exact hb
+  | cons b0 l ih =>
+    intro a hnd hout x hx hp
+    have hnd' := List.nodup_cons.mp hnd
+    have hout' : ∀ u v, u ∈ b0 :: l → (u, v) ∈ E → (u, v) ∈ chain b0 l z := by
+      intro u v hu huv
+      have h2 := hout u v (List.mem_cons_of_mem _ hu) huv
+      simp only [chain, List.mem_cons, Prod.mk.injEq] at h2
+      rcases h2 with ⟨hua, _⟩ | h2
+      · rw [hua] at hu; exact absurd hu hnd'.1
+      · exact h2
+    rcases List.mem_cons.mp hx with rfl | hx'
+    · obtain ⟨b, hE, hb⟩ := path_rotate hp
+      have h1 := hout x b List.mem_cons_self hE
+      simp only [chain, List.mem_cons, Prod.mk.injEq] at h1
+      have hbb : b = b0 := by
+        rcases h1 with ⟨_, h⟩ | h
+        · exact h
+        · exact absurd (chain_src_mem h) hnd'.1
+      subst hbb
+      exact ih b hnd'.2 hout' b List.mem_cons_self hb
+    · exact ih b0 hnd'.2 hout' x hx' hp
+
+/-- a connector node attached on the exporter side of `p` and on the receiver side of `q` makes `p` feed `q` -/
+theorem feeds_of_conn {cfg : Cfg} {p q : Pipeline} {es rs : Sig} {c : CompId}
+    (h1 : Node.conn es rs c ∈ pipeExpNodes cfg p) (h2 : Node.conn es rs c ∈ pipeRecvNodes cfg q) : feeds cfg p q = true := by
+  rcases mem_pipeExpNodes.mp h1 with ⟨_, _, _, h'⟩ | ⟨c1, hc1, hic, _, _, _, _, h'⟩
+  · cases h'
+  rcases mem_pipeRecvNodes.mp h2 with ⟨_, _, _, h''⟩ | ⟨c2, hc2, _, p2, _, _, hs, h''⟩
+  · cases h''
+  injection h' with e1 _ e3
+  injection h'' with f1 f2 f3
+  subst e3
+  subst f3
+  simp only [feeds, List.any_eq_true, Bool.and_eq_true, decide_eq_true_eq]
+  refine ⟨c, hc1, ⟨hic, hc2⟩, ?_⟩
+  rw [← e1, f1, ← f2] at *
+  exact hs
+
+/-- every closed walk of the built graph can be re-based at the capabilities node of some pipeline -/
+theorem closed_to_cap {cfg : Cfg} (wf : cfg.WF) {x : Node} (hp : Path (edges cfg) x x) :
+    ∃ q, q ∈ cfg.pipes ∧ Path (edges cfg) (Node.cap q.id) (Node.cap q.id) := by
+  -- closed walk at a fan-out node
+  have fan : ∀ p, p ∈ cfg.pipes → Path (edges cfg) (Node.fanout p.id) (Node.fanout p.id) →
+      ∃ q, q ∈ cfg.pipes ∧ Path (edges cfg) (Node.cap q.id) (Node.cap q.id) := by
+    intro p hpm hpp
+    obtain ⟨e, hE, he⟩ := path_rotate hpp
+    obtain ⟨m, hE2, hm⟩ := path_rotate he
+    rcases mem_pipeExpNodes.mp (fanout_out wf hpm hE) with ⟨_, _, _, rfl⟩ | ⟨c, _, _, q, _, _, _, rfl⟩
+    · exact absurd hE2 exp_no_out
+    · obtain ⟨q', hq', _, rfl⟩ := src_out (Or.inr ⟨_, _, _, rfl⟩) hE2
+      exact ⟨q', hq', hm⟩
+  obtain ⟨b, hE, hb⟩ := path_rotate hp
+  obtain ⟨p, hpm, h1 | h2 | h3⟩ := mem_edges.mp hE
+  · obtain ⟨_, rfl⟩ := h1
+    exact ⟨p, hpm, hb⟩
+  · exact fan p hpm (closed_forced (procNodes p) (Node.cap p.id) (chain_nodup wf hpm)
+      (fun x y hx hxy => chain_out wf hpm hx hxy) x (chain_src_mem h2) hp)
+  · obtain ⟨rfl, _⟩ := h3
+    exact fan p hpm hp
+
 end OtelVerif.C09
